@@ -52,7 +52,13 @@ ASSUMPTIONS = ['the MODEL (and K) cover Latin-1 input strings (code points 0..25
                'a pure function cannot execute or write anything else; on the REAL code "never executes model code / no effect outside the result" '
                'is observed by canary builtins (every name a script can call is a counting stub), snapshots of sys.modules / cwd / builtins / environ / '
                'warnings filters / parser globals, and the state-between-calls clause (re-parse after the caller emptied earlier results)',
-               'build_model / instantiation are observed on the real code only (not modelled here)']
+               'build_model / instantiation are observed on the real code only (not modelled here): clause (c) has no theorem',
+               'str.format on str arguments raises only AttributeError, IndexError, KeyError, MemoryError, OverflowError, TypeError or ValueError (the tuple parse_equation catches): '
+               'with it the PUnmodelled hole (C13_unmodelled_only_inside_format) cannot hide a foreign exception; exercised by the format-spec corpus and mutations, not proved',
+               'not modelled raise sites, unreachable by reading: the two `assert`s (Symbol.combine names equal; FUNCTION symbols equal) and the enum lookup Type[type_key[1:]] in process_term_match',
+               'time: the model has no cost notion; the harness measures CPU-time growth exponents on twelve scaling families (budget: exponent <= 1.6 once the larger input takes >= 0.1 s CPU)',
+               'K is stricter than the property where the property only says "one of the three own errors" (K compares the exact class and every Symbol field, K_lex the group names); '
+               'a K-only disagreement is reported as broken correspondence (no-failing-input-found), not as a property violation']
 EXHAUSTIVE = {'quick': True, 'thorough': True}
 CASE_TIMEOUT = 300
 HANDLES_TIMEOUT = True
@@ -133,8 +139,7 @@ IDENT = re.compile(r'[A-Za-z_][A-Za-z_0-9]*')
 
 
 def model_finding_class(strings):
-    """EXACT membership in the class of a kept finding, decided by the model (which mirrors the defects): the model answers
-    ValueError (the '='-less statement accepted through the fence alternative), or it accepts with a number of emitted
+    """EXACT membership in the class of a kept finding, decided by the model (which mirrors the defects): the model accepts with a number of emitted
     equations / blocks different from its number of statements (duplicate statements, several left-hand names — exact by
     C13_statement_count_iff).  A K disagreement is tolerated only there (so that a later repair of the defect raises no alarm)."""
     strings = list(strings)
@@ -147,9 +152,7 @@ def model_finding_class(strings):
     if e1 or e2 or e3:
         return [False] * len(strings)
     for p_, s_, n_ in zip(P, S, N):
-        if p_ == 'E:ValueError':
-            out.append(True)
-        elif p_.startswith('O:') and n_.isdigit():
+        if p_.startswith('O:') and n_.isdigit():
             body = s_[2:].rsplit('|', 1)[0]
             out.append(int(n_) != len([x for x in body.split(';') if x]))
         else:
@@ -470,6 +473,14 @@ def observe(s, light=False):
                 # no: the syntax check of parse_model let a statement through that does not compile)
                 ok = all(pc.compile_outcome(x.code)[0] == 'ok' for x in emitted_syms)
                 o['standalone'] = ('standalone-ok' if ok else 'standalone-fails') + '|' + _build_cause(emitted_syms)
+            if M is not None and not light:
+                # the other build paths: untyped template, explicit lag / lead options (must succeed whenever the default build does)
+                for kw in ({'with_type_hints': False}, {'min_lags': 2, 'min_leads': 1}):
+                    try:
+                        fsic.build_model(syms, **kw)(range(6))
+                    except BaseException as e:  # noqa: BLE001
+                        if type(e).__name__ != 'DuplicateNameError':      # the reserved-name finding is reported by the default path
+                            o['build_variant'] = '%s|%s' % (sorted(kw)[0], type(e).__name__)
             if M is not None:
                 try:
                     M(range(3))
@@ -496,6 +507,8 @@ def judge(s, o):
                         % (o['build'], 'compiles on its own' if o.get('standalone') == 'standalone-ok' else 'does NOT all compile on its own')))
         if 'inst' in o:
             out.append(('instantiate|' + o['inst'], 'parse_model returned and build_model succeeded but the class cannot be instantiated: ' + o['inst']))
+        if o.get('build_variant'):
+            out.append(('build_model-variant|' + o['build_variant'], 'the default build_model(symbols) succeeds but build_model(symbols, %s…) / its instantiation raises' % o['build_variant']))
         if o.get('count_class'):
             out.append(('statement-count|' + o['count_class'],
                         '%d statement(s) but %d equation/verbatim block(s) in the built model (%s)' % (o['expected'], o['emitted'], o['count_class'])))
